@@ -3,7 +3,7 @@
    counter, recoverFromError, skipBrokenCode, reduceAll) over the event loop of Gram/Events.v; the error handler
    is an ARBITRARY oracle (number of errors so far -> continue?). *)
 From Coq Require Import List ZArith Bool.
-From TM Require Import Gram.PTables Gram.Run Gram.Events Gram.Recover Gram.Recover_proofs.
+From TM Require Import Gram.PTables Gram.Run Gram.Validator Gram.Events Gram.Recover Gram.Recover_proofs Gram.Recover_progress.
 Import ListNotations.
 Local Open Scope Z_scope.
 
@@ -38,11 +38,125 @@ Theorem C19_recovery_loop_terminates :
   forall p stack input, recover_from_error p stack input <> RecFuel.
 Proof. exact recover_terminates. Qed.
 
-(* NOT proved (partial): termination of the whole recovering parse (needs: after a successful recovery the loop
-   performs the reductions reduceAll predicted and shifts the next token) and absence of the index-out-of-range
-   crashes modelled as RCrash (reduceAll walking below the stack, a goto of -1 inside reduceAll). Both are
-   monitored: generated parsers run under a time limit with recover(), and the model reports RCrash/RFuel. *)
+(* ---- progress after recovery ---- *)
+(* Conditions on the tables: LALR(1) actions (lalr1: the action ignores the tokens after the next one),
+   reduceAll's final shift test agrees with the loop (shift_ok_sound), the end state is not negative.  They hold
+   for both encodings the generated parsers use (theorems C19_conditions_hold_for_default_tables and _optimized_tables below). *)
+
+(* Simulation of reduceAll by the main loop: if reduceAll, walking its state stack stack2 over the real stack,
+   answers "the terminal can be shifted", then from every loop configuration whose stack is the real stack with
+   entries for stack2 on top, the loop performs at most `fuel` iterations, all of them plain reductions (reduces_for) that leave the
+   input, the recovery counter and the error list untouched, and arrives in the end state or in a state where
+   it shifts that terminal. *)
+Theorem C19_reduceAll_predicts_the_loop :
+  forall p eh, lalr1 p -> shift_ok_sound p -> 0 <= rp_end p ->
+  forall f stack stack2 state symbol s',
+  reduce_all f p stack stack2 state symbol = Some (s', true) ->
+  forall x r errs l,
+  vstack (xc_stack x) stack stack2 -> stack2 <> [] -> hd 0 stack2 = state -> xc_state x = state ->
+  t_sym (next_tok (rp_eoi_off p) (xc_input x)) = symbol ->
+  exists k x', (k <= f)%nat /\ rsteps p eh k (mkRC x r errs l) (mkRC x' r errs l) /\ xc_input x' = xc_input x /\
+    reduces_for p k x = true /\
+    (xc_state x' = rp_end p \/ exists q, m_act (rp_m p) (xc_state x') symbol [] = Shift q).
+Proof. exact reduce_all_sim. Qed.
+
+(* Progress: whenever the error branch of the loop continues (recoverFromError returned a stack and a next
+   token t), the loop performs at most 4 * (|stack| + 1) + 64 further iterations without touching the input or
+   reporting an error, and is then in the end state or shifts t. *)
+Theorem C19_progress_after_recovery :
+  forall p eh, lalr1 p -> shift_ok_sound p -> 0 <= rp_end p ->
+  forall c0 stack events c1, handle_error p eh c0 stack events = RContinue c1 ->
+  is_suffix (xc_input (rc_x c1)) (xc_input (rc_x c0)) /\
+  exists k c2, (k <= S (length stack) * 4 + 64)%nat /\ rsteps p eh k c1 c2 /\
+    xc_input (rc_x c2) = xc_input (rc_x c1) /\ rc_errors c2 = rc_errors c1 /\ reduces_for p k (rc_x c1) = true /\
+    (xc_state (rc_x c2) = rp_end p \/
+     exists q c3, m_act (rp_m p) (xc_state (rc_x c2)) (t_sym (next_tok (rp_eoi_off p) (xc_input (rc_x c1)))) [] = Shift q /\
+       rstep p eh c2 = RContinue c3 /\ xc_state (rc_x c3) = q /\ rc_errors c3 = rc_errors c1 /\
+       xc_input (rc_x c3) = (if t_sym (next_tok (rp_eoi_off p) (xc_input (rc_x c1))) =? 0 then xc_input (rc_x c1)
+                             else tl (xc_input (rc_x c1)))).
+Proof. exact recovery_progress. Qed.
+
+(* Hence every recovery episode consumes at least one input token or ends the parse (end-of-input is only
+   shifted into the end state: eoi_ends). *)
+Theorem C19_every_recovery_consumes_a_token_or_ends_the_parse :
+  forall p eh, lalr1 p -> shift_ok_sound p -> 0 <= rp_end p -> eoi_ends p ->
+  forall c0 stack events c1, handle_error p eh c0 stack events = RContinue c1 ->
+  exists k c2, (k <= S (length stack) * 4 + 64)%nat /\ rsteps p eh k c1 c2 /\ rc_errors c2 = rc_errors c1 /\
+    (xc_state (rc_x c2) = rp_end p \/
+     exists c3, rstep p eh c2 = RContinue c3 /\ rc_errors c3 = rc_errors c1 /\
+       ((length (xc_input (rc_x c3)) < length (xc_input (rc_x c0)))%nat \/ xc_state (rc_x c3) = rp_end p)).
+Proof. exact recovery_consumes_or_ends. Qed.
+
+(* Termination of the whole recovering parse, relative to the plain loop: if no configuration of the plain loop
+   starts an infinite sequence of reductions (reductions_terminate; a property of the tables alone, the domain of
+   C01), then for EVERY configuration (stack, input, recovery counter) and every error handler the recovering loop
+   stops with some fuel: error recovery adds no divergence. *)
+Theorem C19_recovering_parse_terminates :
+  forall p eh, lalr1 p -> shift_ok_sound p -> 0 <= rp_end p -> eoi_ends p -> reductions_terminate p ->
+  forall c, exists f, fst (rrun_loop f p eh c) <> RFuel.
+Proof. exact rrun_terminates. Qed.
+
+(* An explicit fuel bound, linear in the remaining input: if every reduction sequence of the plain loop has at most
+   R steps (reductions_bounded R), then (|input| + 1) * (2 R + 3) + R + 1 iterations suffice for EVERY
+   configuration and handler: at most |input| + 1 shifts, at most one recovery episode per shift, at most R
+   reductions before each of them. *)
+Theorem C19_recovering_parse_fuel_bound :
+  forall p eh, lalr1 p -> shift_ok_sound p -> 0 <= rp_end p -> forall R, eoi_ends p -> reductions_bounded p R ->
+  forall c, fst (rrun_loop ((length (xc_input (rc_x c)) + 1) * (2 * R + 3) + R + 1) p eh c) <> RFuel.
+Proof. exact rrun_fuel_linear. Qed.
+
+Theorem C19_more_fuel_changes_nothing :
+  forall p eh f c o c', rrun_loop f p eh c = (o, c') -> o <> RFuel -> forall g, rrun_loop (f + g) p eh c = (o, c').
+Proof. exact rrun_fuel_mono. Qed.
+
+Theorem C19_conditions_hold_for_default_tables :
+  forall p t rl rs, rp_m p = lalr1_machine t rl rs -> rp_shift_ok p = shift_ok_default t -> lalr1 p /\ shift_ok_sound p.
+Proof. exact conditions_default. Qed.
+
+Theorem C19_conditions_hold_for_optimized_tables :
+  forall p o terms rl rs, rp_m p = opt_machine o terms rl rs -> rp_shift_ok p = shift_ok_opt o -> lalr1 p /\ shift_ok_sound p.
+Proof. exact conditions_opt. Qed.
+
+(* NOT proved (partial): the hypotheses about the reduction sequences of the PLAIN loop (reductions_terminate,
+   reductions_bounded R) from the validator conditions of C01 -- C01 proves acceptance of sentences with some fuel
+   and absence of crashes, but no bound on reduction sequences on arbitrary (also invalid) input; for real grammars
+   the bound depends on the stack depth, so reductions_bounded with a uniform R is a strong assumption, while
+   reductions_terminate is what any terminating plain parser satisfies. Also not proved: absence of the
+   index-out-of-range crashes modelled as RCrash (reduceAll walking below the stack, a goto of -1 inside
+   reduceAll). Both are monitored: generated parsers run under a time limit with recover(), and the model reports
+   RCrash/RFuel. *)
+
+(* non-vacuity: a two-state machine with an 'error' transition; the input "x y" has a syntax error at x, recovery
+   skips x, pushes the error entry, and the loop then shifts y into the end state *)
+Definition mx : machine :=
+  mkMachine (fun s a _ => if (s =? 1) && (a =? 3) then Shift 2 else Err)
+            (fun s x => if (s =? 0) && (x =? 1) then 1 else -1) (fun _ => 0) (fun _ => 0).
+Definition px : rparams := mkRP mx [] true 2 2 1 [3] (fun s a => (s =? 1) && (a =? 3)) (fun _ _ => false).
+
+Example C19_example :
+  lalr1 px /\ shift_ok_sound px /\ 0 <= rp_end px /\ eoi_ends px /\ reductions_terminate px /\ reductions_bounded px 0 /\
+  (let '(o, c) := rrun 10 px (fun _ => true) 0 [mkTok 2 0 1; mkTok 3 1 2] in
+   o = RAccept /\ rc_errors c = [(0, 1)] /\ xc_input (rc_x c) = [] /\ map x_sym (xc_stack (rc_x c)) = [3; 1; 0]).
+Proof.
+  split; [intros s a more; reflexivity|]. split.
+  { intros s a H. simpl in *. rewrite H. eauto. }
+  split; [simpl; discriminate|]. split.
+  { intros s q H. simpl in H. rewrite andb_false_r in H. discriminate. }
+  split.
+  { intros x. exists 1%nat. simpl. unfold plain_reduce. simpl. destruct (_ && _); reflexivity. }
+  split.
+  { intros x. simpl. unfold plain_reduce. simpl. destruct (_ && _); reflexivity. }
+  vm_compute. repeat split; reflexivity.
+Qed.
 
 Print Assumptions C19_recovery_transparent.
 Print Assumptions C19_errors_inside_the_input_and_ordered.
 Print Assumptions C19_recovery_loop_terminates.
+Print Assumptions C19_reduceAll_predicts_the_loop.
+Print Assumptions C19_progress_after_recovery.
+Print Assumptions C19_every_recovery_consumes_a_token_or_ends_the_parse.
+Print Assumptions C19_recovering_parse_terminates.
+Print Assumptions C19_recovering_parse_fuel_bound.
+Print Assumptions C19_more_fuel_changes_nothing.
+Print Assumptions C19_conditions_hold_for_default_tables.
+Print Assumptions C19_conditions_hold_for_optimized_tables.
